@@ -549,6 +549,8 @@ class Ev:
             return BoundLib(f"arr.{name}", v)
         if isinstance(v, ArrV) and name in ("conj", "conjugate"):
             return BoundLib("numpy.conj", v)
+        if isinstance(v, ArrV) and name == "reshape":
+            return BoundLib("numpy.reshape", v)
         if isinstance(v, ArrV) and name == "setflags":
             return BoundLib("ndarray.setflags", v)
         if isinstance(v, ArrV) and name == "tobytes":
@@ -4307,6 +4309,8 @@ def lib_repeat(ev, a, k, n, mod):
     x = _as_arr(ev, a[0], n, mod)
     reps = _const_int(a[1] if len(a) > 1 else k.get("repeats"))
     axis = k.get("axis", a[2] if len(a) > 2 else None)
+    if isinstance(x, ArrV) and axis is None and x.batch == 0 and len(x.shape) == 1:
+        axis = sp.Integer(0)
     if not isinstance(x, ArrV) or axis is None:
         raise ev.err("numpy.repeat without an axis / of a value that is not a small array", n, mod)
     axis = _const_int(axis) % len(x.shape)
@@ -4321,6 +4325,75 @@ def lib_repeat(ev, a, k, n, mod):
 
 
 lib_repeat.kw = {"axis", "repeats"}
+
+
+def lib_reshape(ev, a, k, n, mod):
+    """reshape (C order) of the constant axes of a small array; the grid axes must stay in front, unchanged"""
+    x = a[0]
+    shp = a[1:] if len(a) != 2 else (list(a[1].items) if isinstance(a[1], Tup) else [a[1]])
+    if "newshape" in k or "shape" in k:
+        t = k.get("newshape", k.get("shape"))
+        shp = list(t.items) if isinstance(t, Tup) else [t]
+    if not isinstance(x, ArrV) or x.batch_last:
+        raise ev.err("reshape of a value that is not a small array with leading grid axes", n, mod)
+    if str(k.get("order", "C")) not in ("C", "'C'"):
+        raise ev.err("reshape in an order other than C", n, mod)
+    shp = list(shp)
+    lead, rest = shp[:x.batch], shp[x.batch:]
+    want = [sp.Symbol(f"dim{i}", positive=True, integer=True) for i in range(x.batch)]
+    if len(lead) != x.batch or any(as_sym(u) != w for u, w in zip(lead, want)):
+        raise ev.err("reshape that changes the grid axes of a small array", n, mod)
+    dims = [_const_int(d) for d in rest]
+    total = 1
+    for d in x.shape:
+        total *= d
+    if dims.count(-1) > 1:
+        raise RaisedV("ValueError", f"{mod.rel}:{getattr(n, 'lineno', 0)}" if mod else "")
+    if -1 in dims:
+        known = 1
+        for d in dims:
+            if d != -1:
+                known *= d
+        if known == 0 or total % known:
+            raise RaisedV("ValueError", f"{mod.rel}:{getattr(n, 'lineno', 0)}" if mod else "")
+        dims[dims.index(-1)] = total // known
+    prod = 1
+    for d in dims:
+        prod *= d
+    if prod != total or any(d < 0 for d in dims):
+        raise RaisedV("ValueError", f"{mod.rel}:{getattr(n, 'lineno', 0)}" if mod else "")
+    out = ArrV(x.batch, tuple(dims), x.fill)
+    src = list(itertools.product(*[range(d) for d in x.shape]))
+    dst = list(itertools.product(*[range(d) for d in dims]))
+    for s_, d_ in zip(src, dst):
+        out.cells[d_] = x.get(s_)
+    if hasattr(x, "is_cond"):
+        out.is_cond = x.is_cond
+    return out
+
+
+lib_reshape.kw = {"newshape", "shape", "order"}
+
+
+def lib_tile(ev, a, k, n, mod):
+    """numpy.tile of a constant-length vector a constant number of times (the whole vector repeated end to end)"""
+    x = a[0]
+    reps = _const_int(a[1] if len(a) > 1 else k.get("reps"))
+    if isinstance(x, Tup):
+        items = list(x.items)
+    elif isinstance(x, ArrV) and x.batch == 0 and len(x.shape) == 1:
+        items = [x.get((j,)) for j in range(x.shape[0])]
+    else:
+        raise ev.err("numpy.tile of a value that is not a constant-length vector", n, mod)
+    if reps < 0:
+        raise RaisedV("ValueError", f"{mod.rel}:{getattr(n, 'lineno', 0)}" if mod else "")
+    out = ArrV(0, (len(items) * reps,))
+    for j in range(len(items) * reps):
+        out.cells[(j,)] = items[j % len(items)]
+    return out
+
+
+lib_tile.kw = {"reps"}
 def lib_arange(ev, a, k, n, mod):
     if not all(is_sym(x) and x.is_Integer for x in a):
         return sp.Function("ARANGE")(*[as_sym(x) for x in a])        # 0, 1, ..., n-1 for a symbolic count: an opaque index vector
@@ -4362,7 +4435,8 @@ def lib_trace(ev, a, k, n, mod):
 lib_trace.kw = {"axis1", "axis2", "offset"}
 LIB.update({"numpy.trace": lib_trace})
 LIB.update({"numpy.transpose": lib_transpose, "ndarray.transpose": lib_transpose, "numpy.stack": lib_stack("stack"), "numpy.column_stack": lib_stack("column_stack"),
-            "numpy.vstack": lib_stack("vstack"), "numpy.hstack": lib_stack("hstack"), "numpy.repeat": lib_repeat})
+            "numpy.vstack": lib_stack("vstack"), "numpy.hstack": lib_stack("hstack"), "numpy.repeat": lib_repeat, "numpy.reshape": lib_reshape,
+            "numpy.tile": lib_tile})
 LIB.update({"numpy.clip": lib_clip, "ndarray.clip": lib_clip, "numpy.maximum": lib_minmax2("MAXIMUM"), "numpy.minimum": lib_minmax2("MINIMUM"),
             "numpy.fmax": lib_minmax2("MAXIMUM"), "numpy.fmin": lib_minmax2("MINIMUM")})
 LIB.update({"numpy.zeros_like": lib_zeros_like, "numpy.ones_like": lib_ones_like, "numpy.empty_like": lib_empty_like, "numpy.eye": lib_eye,
